@@ -49,6 +49,16 @@ def H2(u, v=3):
         if D(905):
             break
     return u
+
+
+class IT(object):
+    """an iterable whose iteration is an observable event"""
+    def __init__(self, k, *xs):
+        self.k, self.xs = k, xs
+
+    def __iter__(self):
+        T(self.k)
+        return iter(self.xs)
 '''
 
 KNOWN_FOR_TARGET = 'for-target-killed-on-zero-iterations'
@@ -56,6 +66,7 @@ KNOWN_CHAIN_EQ = 'chained-equality-under-equality-operators-evaluates-middle-ope
 KNOWN_LAMBDA = 'lambda-closure-variable-not-kept-live'
 KNOWN_LISTS_AUG = 'lists-augassign-subscript-operator-missing'
 KNOWN_DICT_KW = 'call-kwargs-unpacking-with-rebound-dict'
+KNOWN_SOLE_STAR = 'sole-starred-argument-unpacked-before-keywords'
 
 
 def generate():
@@ -158,6 +169,13 @@ def is_dict_kwargs_finding(src, b):
                   (isinstance(n, ast.arg) and n.arg == 'dict') for n in ast.walk(tree))
     unpacks = any(isinstance(n, ast.Call) and any(k.arg is None for k in n.keywords) for n in ast.walk(tree))
     return rebinds and unpacks
+
+
+def is_sole_star_finding(src):
+    """the program has a call whose only positional argument is starred and that also has keyword arguments"""
+    import ast
+    return any(isinstance(n, ast.Call) and len(n.args) == 1 and isinstance(n.args[0], ast.Starred) and n.keywords
+               for n in ast.walk(ast.parse(src)))
 
 
 def is_lists_aug_finding(src, feats, b):
@@ -439,6 +457,13 @@ def expression_tie(run, rnd, quick, batch=0):
         return ('the model of conditional_expressions / logical_expressions and the real passes disagree on %d expressions, e.g. %s '
                 '(features %s) in\n%s' % (len(bad), etext, feats, src)), sorted({meta[i][0] for i in bad})
     return None, []
+
+
+def call_trees_tie(run, rnd, quick, batch=0):
+    """coq/Calls: the model of call_trees.py against the real pass (structural) and the call semantics against CPython;
+    see props/c01_calls.py"""
+    from props import c01_calls
+    return c01_calls.tie(run, rnd, quick, PRELUDE, convert, batch)
 
 
 def control_ops_tie(run, rnd, quick, batch=0):
@@ -760,7 +785,7 @@ def check(run):
         tie_msg = str(e)
         run.note(tie_msg)
     if tie_ok:
-        vlib.standard_proof_step(run, ['Lower/PassesCheck.vo', 'Lower/Compose.vo', 'Lower/Source.vo', 'Fn/FnProofs.vo', 'Fn/FnCheck.vo', 'Expr/ExprProofs.vo', 'Expr/ExprCheck.vo', 'Generated/C01_ops_gen.vo', 'Vars/VarProofs.vo', 'Vars/VarCheck.vo', 'Ops/CtlOpsProofs.vo', 'Ops/CtlCheck.vo', 'Generated/C01_ctl_gen.vo'])
+        vlib.standard_proof_step(run, ['Lower/PassesCheck.vo', 'Lower/Compose.vo', 'Lower/Source.vo', 'Fn/FnProofs.vo', 'Fn/FnCheck.vo', 'Expr/ExprProofs.vo', 'Expr/ExprCheck.vo', 'Generated/C01_ops_gen.vo', 'Vars/VarProofs.vo', 'Vars/VarCheck.vo', 'Ops/CtlOpsProofs.vo', 'Ops/CtlCheck.vo', 'Generated/C01_ctl_gen.vo', 'Calls/CallProofs.vo', 'Calls/CallCheck.vo'])
     rnd = random.Random(run.seed * 104729 + 1)
     lower_bad, lower_programs = None, []
     nprog = 120 if quick else 1500
@@ -813,7 +838,7 @@ def check(run):
         if tie_ok:
             # the thorough tier repeats the ties in batches of the quick size (one Coq file each)
             for batch in range(1 if quick else 6):
-                for tie in (lowering_tie, functionalise_tie, expression_tie, variables_tie, control_ops_tie):
+                for tie in (lowering_tie, functionalise_tie, expression_tie, variables_tie, control_ops_tie, call_trees_tie):
                     if not lower_bad:
                         lower_bad, lower_programs = tie(run, rnd, quick, batch)
         mod = convrun.load_module(allsrc, PRELUDE)
@@ -847,6 +872,8 @@ def check(run):
                             run.violation(d, {}, classify=KNOWN_LISTS_AUG)
                         elif is_dict_kwargs_finding(src, b):
                             run.violation(d, {}, classify=KNOWN_DICT_KW)
+                        elif is_sole_star_finding(src) and 'external call log' in d:
+                            run.violation(d, {}, classify=KNOWN_SOLE_STAR)
                         elif is_chained_equality_finding(src, feats, a, b):
                             run.violation(d, {}, classify=KNOWN_CHAIN_EQ)
                         elif is_lambda_closure_finding(src):
